@@ -19,7 +19,7 @@ Proof. induction l as [|a l IH]; cbn; [reflexivity|now rewrite IH]. Qed.
 
 Lemma qstep_inv q h o : QInv q h -> QInv (fst (qstep q o)) (qhstep q h o).
 Proof.
-  intros [Ha [Hc [Hm Hcl]]]. unfold QInv, qhstep, qstep. destruct o as [m| | | |].
+  intros [Ha [Hc [Hm Hcl]]]. unfold QInv, qhstep, qstep. destruct o as [m| |taken| | |].
   - destruct (Nat.ltb_spec (q_mtu q) (length (q_payload m))) as [L|L]; cbn [fst snd]; [tauto|].
     destruct (q_closed q) eqn:Ecl; cbn [fst snd]; [rewrite Ecl; tauto|].
     destruct (Nat.ltb_spec (length (q_items q)) (q_cap q)) as [L2|L2]; cbn [fst snd]; [|rewrite Ecl; tauto].
@@ -35,6 +35,13 @@ Proof.
       * cbn in Hc. lia.
       * now inversion Hm.
       * intros E. specialize (Hcl E). discriminate.
+  - destruct taken; [|cbn [fst snd]; tauto].
+    destruct (q_items q) as [|m t] eqn:Ei; cbn [fst snd]; [rewrite Ei; tauto|].
+    cbn [q_items q_cap q_mtu q_closed h_accepted h_left]. repeat split.
+    + rewrite Ha, map_app. cbn. now rewrite <- app_assoc.
+    + cbn in Hc. lia.
+    + now inversion Hm.
+    + intros E. specialize (Hcl E). discriminate.
   - cbn [fst snd q_items q_cap q_mtu q_closed h_accepted h_left]. split; [|split; [cbn; lia|split; [constructor|auto]]].
     rewrite Ha, map_app, map_fst_tag. now rewrite app_nil_r.
   - cbn [fst snd q_items q_cap q_mtu q_closed h_accepted h_left]. split; [|split; [cbn; lia|split; [constructor|auto]]].
@@ -77,9 +84,10 @@ Theorem closed_is_final q h o : QInv q h -> q_closed q = true ->
   q_closed (fst (qstep q o)) = true /\
   match snd (qstep q o) with QAccepted | QGot _ | QWouldBlock => False | _ => True end.
 Proof.
-  intros [_ [_ [_ Hcl]]] E. specialize (Hcl E). unfold qstep. destruct o as [m| | | |].
+  intros [_ [_ [_ Hcl]]] E. specialize (Hcl E). unfold qstep. destruct o as [m| |taken| | |].
   - destruct (Nat.ltb (q_mtu q) _); cbn [fst snd]; rewrite E; cbn [fst snd]; auto.
   - rewrite Hcl, E. cbn. auto.
+  - rewrite Hcl. destruct taken; cbn; auto.
   - cbn. auto.
   - cbn. auto.
   - cbn. auto.
